@@ -19,13 +19,13 @@ func cat(parts ...[]byte) []byte {
 	return out
 }
 
-func u8(v ...byte) []byte { return v }
-func u16(v uint16) []byte { b := make([]byte, 2); binary.BigEndian.PutUint16(b, v); return b }
-func u24(v uint32) []byte { return []byte{byte(v >> 16), byte(v >> 8), byte(v)} }
-func u32(v uint32) []byte { b := make([]byte, 4); binary.BigEndian.PutUint32(b, v); return b }
-func u64(v uint64) []byte { b := make([]byte, 8); binary.BigEndian.PutUint64(b, v); return b }
+func u8(v ...byte) []byte  { return v }
+func u16(v uint16) []byte  { b := make([]byte, 2); binary.BigEndian.PutUint16(b, v); return b }
+func u24(v uint32) []byte  { return []byte{byte(v >> 16), byte(v >> 8), byte(v)} }
+func u32(v uint32) []byte  { b := make([]byte, 4); binary.BigEndian.PutUint32(b, v); return b }
+func u64(v uint64) []byte  { b := make([]byte, 8); binary.BigEndian.PutUint64(b, v); return b }
 func str0(s string) []byte { return append([]byte(s), 0) }
-func zeros(n int) []byte  { return make([]byte, n) }
+func zeros(n int) []byte   { return make([]byte, n) }
 func seq(n int, start byte) []byte {
 	b := make([]byte, n)
 	for i := range b {
